@@ -449,6 +449,9 @@ def r15g(ctx: Context) -> None:
                     rule.ok(key, "atomic rename onto the user's file")
                 else:
                     rule.fail(key, site.where, f"{ext} writes the user's file '{node.args[1].id}' in place: a run cut short during the copy leaves it truncated or half-written")
+            if ext in ("os.remove", "os.unlink", "os.truncate", "os.rmdir", "shutil.rmtree") and node.args and isinstance(node.args[0], ast.Name) and node.args[0].id in params:
+                sinks += 1
+                rule.fail(func_key(func, node), site.where, f"{ext} removes the user's file '{node.args[0].id}': until the replacement is in place (and for good, if that step fails or the run is cut short) the document does not exist")
             if ext == "builtins.open" and node.args and isinstance(node.args[0], ast.Name) and node.args[0].id in params:
                 mode = node.args[1] if len(node.args) > 1 else next((k.value for k in node.keywords if k.arg == "mode"), None)
                 if isinstance(mode, ast.Constant) and any(ch in str(mode.value) for ch in "wax+"):
